@@ -432,12 +432,47 @@ def rule_r5(F, rep):
                                  "forced" if True in forced else "not forced", why), fn.loc)
 
 
+SMALL_ARRAY = {"do_std_sort": "sort", "do_std_set": "set"}
+
+
+def rule_r6(F, rep):
+    R = rep.rule("C04.R6", "std.sort and std.set of an array with fewer than two elements need no key: with length 0 or 1 they "
+                 "return the array without calling keyF or forcing an element; with two or more they compute the keys")
+    for hname in SMALL_ARRAY:
+        fn = F.fn("<%s>::%s" % (E, hname))
+        rep.fn(fn)
+        body = fn.body
+        for ln in (0, 1, 2):
+            def hook(w, bb, t, env, args, ln=ln):
+                n = callee_name(t) or ""
+                if n in ("<[T]>::len", "<alloc::vec::Vec>::len"):
+                    return ln
+                if n in ("<[T]>::is_empty", "<alloc::vec::Vec>::is_empty"):
+                    return int(ln == 0)
+                return None
+            w_outs = em.walk_handler(F, rep, fn, values=["Function", "Array"], extra_hook=hook, want_calls=True)
+            used = set()
+            for o in w_outs:
+                if o[0] != "return" or em.is_err_return(o):
+                    continue
+                calls = [m[1] for m in o[1] if m[0] == "call"]
+                pushes = [x if not isinstance(x, tuple) else x[0] for x in (m[2] for m in o[1] if m[0] == "push" and m[1] == "state_stack")]
+                used.add(bool("check_thunk_args_and_execute_call" in calls or "DoThunk" in pushes))
+            # the key loop's iteration count is not tracked: for two elements only "some path computes keys" is required
+            ok = (used == {False}) if ln < 2 else (True in used)
+            rep.ob(R, "%s|len=%d" % (hname, ln), ok, {"builtin": SMALL_ARRAY[hname], "array_len": ln, "computes_keys": sorted(used)})
+            if not ok:
+                rep.violation(R, "%s|len=%d" % (hname, ln), "std.%s on an array of length %d %s keyF / forces elements (paths: %s)"
+                              % (SMALL_ARRAY[hname], ln, "calls" if True in used else "does not call", sorted(used)), fn.loc)
+
+
 def run(F, rep, tier):
     rule_r1(F, rep)
     rule_r2(F, rep)
     rule_r3(F, rep)
     rule_r4(F, rep)
     rule_r5(F, rep)
+    rule_r6(F, rep)
     rep.assume("the rewrite-invariance consequence (naming, identity functions, dead code) needs execution and is not "
                "decided; builtins' internal evaluation order is not decided")
     rep.trust("Jsonnet specification: laziness positions, transcribed as rules/c04.py:LAZY")
